@@ -1,5 +1,203 @@
-// stub: check for C19 not built yet
+mod check;
+mod derived;
+mod json;
+mod node;
+mod obs;
+mod sites;
+
+use check::{Case, Mode, Opt, Subj, Wk};
+use node::*;
+use obs::Hop;
+use vcore::proptest::prelude::*;
+use vcore::{pick, Level};
+
+const RULE: &str = "a case is (value of one static type, capture attribute, #[emit::optional] wrapping, read path of 0-3 hops, as_map flag): the value is fed to the ONE fixed `emit::props!` call site stamped out for that (type, attribute, optional) combination and the resulting property is read before and after every hop (erased props, erased event through dyn ErasedEmitter, to_owned, to_shared, ThreadLocalCtxt push/root + with_current, ambient props of an event emitted through a Runtime, frame carried to another thread, owned copy moved to another thread). Values: every integer type at extremes/powers of two/random, f32/f64 incl. NaN, +-inf, -0, subnormals, bool, char, borrowed/owned/static strings with control and non-ASCII characters, Display-only and dyn Display/Debug values, Option<i32>, a recursive structured grammar (null/unit/option/seq/tuple/string-key and non-string-key maps/structs/all four enum variant shapes, depth <= 5) with hand-written serde+sval impls, six derive-based types, error chains of depth 0-4 and the well-known keys lvl/err/trace_id/span_id/span_parent. Non-trivial = structured value of container depth >= 2, or a number at the extreme of its type (MIN/MAX, non-finite, -0, smallest positive), or a read path of >= 2 hops.";
+
+const ASSUMPTIONS: [&str; 9] = [
+    "the oracle is the property text: default capture of numbers/bools/strings must pull back as the same typed value (f32, which has no FromValue, as its exact f64 widening), anything else must display as its Display text; as_display/as_debug must give exactly format!(\"{}\")/format!(\"{:?}\"); as_serde must give serde_json(captured)==serde_json(original) and as_sval sval_json(captured)==sval_json(original) as text; the other framework's JSON of the captured value must denote the same document (own strict JSON reader: order and duplicates kept, numbers by value) as the capturing framework's JSON of the original; as_error / `err:` must expose the same source-chain messages through to_borrowed_error() and cast::<&dyn Error>(); #[emit::optional] None must be absent from get() and for_each()",
+    "documented conversions that are asserted beyond the same-type pull: Value::as_f64 (`as` conversion for numbers, parse for strings, NaN otherwise) and String/Cow<str>/emit::Str casts of strings after buffering (book: working-with-events); integer casts to OTHER integer types and to f64 are undocumented: a None is accepted, a Some(different number) is a failure",
+    "don't-care (counted, never failed): `&str`/to_borrowed_str casts after a buffering hop (documented to fail); cross-framework comparison when the ORIGINAL's own serde_json and sval_json renderings are not the same JSON document (e.g. unit structs: null vs \"Name\"; map keys serde_json refuses) or either is an error; Display text of non-primitive (Display-only, char, Level/TraceId/SpanId objects) values and error chains after a buffering hop (the text only promises buffering for numbers, booleans, strings and structured values); `Option::None` under a well-known key (absent or null)",
+    "don't-care: `inspect: true` variants (undocumented; the repository's own UI tests use as_display(inspect: true) to get a typed primitive back) may behave like the default capture for primitives, so e.g. as_debug(inspect: true) of 1.0f64 displaying `1` or of a String displaying unquoted is accepted when the typed value round-trips; and a `str` under as_debug displays unquoted because emit deliberately stores every `str` as the string itself under every attribute (explicit `impl Capture* for str`)",
+    "the hand-written serde::Serialize and sval::Value impls of the structured grammar describe the same data using the correspondence of the frameworks' own derive macros (and of sval_serde); labels that are not Rust identifiers are not tagged VALUE_IDENT",
+    "known finding D17 (signature sval-capture/nested-seq/serde-read): raised only when the value was captured through sval, is read through serde, contains a NON-EMPTY sequence below its root, and serde_json's output is not the same JSON document; every other cross-framework mismatch has a different signature",
+    "serde_json and sval_json themselves are trusted as serializers of the ORIGINAL value; value-bag / sval_serde / sval_buffer behaviour is part of what is observed, not trusted",
+    "ThreadLocalCtxt state is per thread and per ctxt id; each worker thread owns one ctxt; frames are exited by guards, so a failing case cannot leak ambient state into the next",
+    "limits: call sites are emit::props! (the same capture hooks emit!/span! expand to); sinks (file/OTLP/term) are C13's domain; `Value::parse`, `to_f64_sequence` and Debug of Value are not asserted",
+];
+
+fn hop() -> impl Strategy<Value = Hop> {
+    prop_oneof![
+        3 => Just(Hop::Erase),
+        3 => Just(Hop::Event),
+        3 => Just(Hop::Owned),
+        3 => Just(Hop::Shared),
+        3 => Just(Hop::CtxtPush),
+        2 => Just(Hop::CtxtRoot),
+        3 => Just(Hop::Ambient),
+        1 => Just(Hop::CtxtThread),
+        1 => Just(Hop::OwnedThread),
+    ]
+}
+
+fn hops() -> impl Strategy<Value = Vec<Hop>> {
+    prop_oneof![
+        3 => Just(Vec::new()),
+        8 => prop::collection::vec(hop(), 1..=1),
+        6 => prop::collection::vec(hop(), 2..=2),
+        3 => prop::collection::vec(hop(), 3..=3),
+    ]
+}
+
+fn opt() -> impl Strategy<Value = Opt> {
+    prop_oneof![6 => Just(Opt::Plain), 2 => Just(Opt::Some), 2 => Just(Opt::None)]
+}
+
+/// The attributes stamped out for a subject (weights by repetition).
+fn modes_for(s: &Subj) -> Vec<Mode> {
+    use Mode::*;
+    match s {
+        Subj::F32(_) | Subj::Char(_) => vec![Default, Default, Display, DisplayI, Debug, DebugI, Sval, SvalI, Serde, SerdeI],
+        Subj::Isize(_) | Subj::Usize(_) => vec![Default, Default, Default, Display, DisplayI, Debug, DebugI, Value, Value, ValueI, Serde, SerdeI],
+        Subj::Str(_) | Subj::Static(_) => vec![Default, Default, Display, DisplayI, Debug, DebugI, Value, ValueI, Sval, SvalI, Serde, SerdeI, Error],
+        Subj::Disp(_) => vec![Default, Display, DisplayI, Debug, DebugI],
+        Subj::Dyn(_) => vec![DisplayI, DebugI],
+        Subj::OptI32(_) => vec![Debug, DebugI, Value, ValueI, Sval, SvalI, Serde, SerdeI],
+        Subj::Node(_) | Subj::Derived(_) => vec![Debug, DebugI, Sval, Sval, SvalI, Serde, Serde, SerdeI],
+        Subj::Err(_) => vec![Error, Error, Error, Error, Default, Display, DisplayI, Debug, DebugI],
+        Subj::DynErr(_) => vec![Error],
+        Subj::Wk(_) => vec![WellKnown],
+        _ => vec![Default, Default, Default, Display, DisplayI, Debug, DebugI, Value, Value, ValueI, Sval, SvalI, Serde, SerdeI],
+    }
+}
+
+fn case_of(subj: impl Strategy<Value = Subj>) -> impl Strategy<Value = Case> {
+    (subj, any::<u32>(), opt(), hops(), prop::bool::weighted(0.25)).prop_map(|(subj, mi, opt, hops, as_map)| {
+        let modes = modes_for(&subj);
+        let mode = modes[pick(mi, modes.len())];
+        let opt = match &subj {
+            Subj::Wk(Wk::LvlOpt(_)) | Subj::Wk(Wk::TraceIdOpt(_)) | Subj::Wk(Wk::SpanIdOpt(_)) => Opt::Plain,
+            _ => opt,
+        };
+        Case { subj, mode, opt, hops, as_map }
+    })
+}
+
+fn prims() -> impl Strategy<Value = Subj> {
+    prop_oneof![
+        2 => any_i8().prop_map(Subj::I8),
+        2 => any_i16().prop_map(Subj::I16),
+        3 => any_i32().prop_map(Subj::I32),
+        3 => any_i64().prop_map(Subj::I64),
+        3 => i128_wide().prop_map(Subj::I128),
+        2 => any_isize().prop_map(|v| Subj::Isize(v as i64)),
+        2 => any_u8().prop_map(Subj::U8),
+        2 => any_u16().prop_map(Subj::U16),
+        2 => any_u32().prop_map(Subj::U32),
+        3 => any_u64().prop_map(Subj::U64),
+        3 => u128_wide().prop_map(Subj::U128),
+        2 => any_usize().prop_map(|v| Subj::Usize(v as u64)),
+        3 => f32_bits().prop_map(Subj::F32),
+        5 => f64_bits().prop_map(Subj::F64),
+        2 => any::<bool>().prop_map(Subj::Bool),
+        2 => any_char().prop_map(Subj::Char),
+        2 => any_text().prop_map(Subj::Disp),
+        1 => any_text().prop_map(Subj::Dyn),
+        2 => prop::option::of(any_i32()).prop_map(Subj::OptI32),
+    ]
+}
+
+fn strings() -> impl Strategy<Value = Subj> {
+    prop_oneof![
+        4 => any_text().prop_map(Subj::Str),
+        4 => any_text().prop_map(Subj::String),
+        1 => (0u8..8).prop_map(Subj::Static),
+    ]
+}
+
+fn chain() -> impl Strategy<Value = Vec<String>> {
+    prop::collection::vec(prop_oneof![any_text(), "[a-z ]{1,12}"], 1..=5)
+}
+
+fn errors() -> impl Strategy<Value = Subj> {
+    prop_oneof![
+        5 => chain().prop_map(Subj::Err),
+        2 => chain().prop_map(Subj::DynErr),
+        2 => chain().prop_map(|m| Subj::Wk(Wk::Err(m))),
+        1 => chain().prop_map(|m| Subj::Wk(Wk::ErrDyn(m))),
+        1 => any_text().prop_map(|m| Subj::Wk(Wk::ErrStr(m))),
+    ]
+}
+
+fn hex_text(len: usize) -> impl Strategy<Value = String> {
+    prop_oneof![
+        4 => prop::collection::vec(prop::sample::select(vec!['0', '1', '9', 'a', 'f', 'A', 'F']), len..=len).prop_map(|v| v.into_iter().collect::<String>()),
+        1 => prop::collection::vec(prop::sample::select(vec!['0', '1', 'f', 'g', ' ', '-']), len - 1..=len + 1).prop_map(|v| v.into_iter().collect::<String>()),
+        1 => Just("0".repeat(len)),
+        1 => any_text(),
+    ]
+}
+
+fn well_known() -> impl Strategy<Value = Subj> {
+    let lvl_text = prop_oneof![
+        3 => prop::sample::select(vec!["debug", "info", "warn", "error", "INFO", "Warning", "err", "dbg", "information", "i", "", "trace", "fatal", "warn(3)"]).prop_map(str::to_string),
+        1 => any_text(),
+    ];
+    prop_oneof![
+        2 => (0u8..4).prop_map(Wk::Lvl),
+        2 => lvl_text.prop_map(Wk::LvlStr),
+        1 => prop::option::of(0u8..4).prop_map(Wk::LvlOpt),
+        2 => u128_wide().prop_map(Wk::TraceId),
+        2 => prop_oneof![4 => u128_wide(), 1 => Just(0u128)].prop_map(Wk::TraceIdNum),
+        2 => hex_text(32).prop_map(Wk::TraceIdStr),
+        1 => prop::option::of(any_u64()).prop_map(Wk::TraceIdOpt),
+        2 => any_u64().prop_map(Wk::SpanId),
+        2 => any_u64().prop_map(Wk::SpanIdNum),
+        2 => hex_text(16).prop_map(Wk::SpanIdStr),
+        1 => prop::option::of(any_u64()).prop_map(Wk::SpanIdOpt),
+        1 => any_u64().prop_map(Wk::SpanParent),
+        1 => any_u64().prop_map(Wk::SpanParentNum),
+        1 => hex_text(16).prop_map(Wk::SpanParentStr),
+    ]
+    .prop_map(Subj::Wk)
+}
+
+fn structured() -> impl Strategy<Value = Subj> {
+    // half of the trees are generated without `Seq` nodes below the root so that a good share of
+    // sval-captured values stays clear of the known nested-sequence finding
+    prop_oneof![
+        1 => tree(3),
+        1 => tree_no_nested_seq(),
+    ]
+    .prop_map(Subj::Node)
+}
+
 fn main() {
-    eprintln!("C19: check not built yet");
-    std::process::exit(2);
+    vcore::run("C19", Level::Exploration, RULE, &ASSUMPTIONS, |s| {
+        // DESIGN: each capture mode >= 8 %, ambient path >= 20 % (of ~100 k quick cases); the
+        // thresholds below are what the quick tier exceeds at least tenfold
+        for class in ["mode:default", "mode:display", "mode:debug", "mode:value", "mode:sval", "mode:serde", "mode:error"] {
+            s.require(class, 800);
+        }
+        s.require("optional:none", 800);
+        s.require("optional:some", 800);
+        s.require("path:ambient", 2000);
+        s.require("path:thread", 300);
+        s.require("path:erased", 1500);
+        s.require("path:owned-copy", 1500);
+        s.require("shape:nested-seq", 500);
+        s.require("shape:no-nested-seq", 1500);
+        s.require("shape:depth>=2", 1500);
+        s.require("cross:comparable", 1500);
+        s.require("number:extreme", 300);
+        s.require("error:depth-4", 100);
+        s.require("error:depth-0", 100);
+        s.require("dontcare:cross-framework-noncomparable", 20);
+
+        s.gen("primitives", s.n(30_000, 1_200_000), || case_of(prims()), sites::check);
+        s.gen("strings", s.n(14_000, 500_000), || case_of(strings()), sites::check);
+        s.gen("structured", s.n(34_000, 1_500_000), || case_of(structured()), sites::check);
+        s.gen("derived", s.n(10_000, 400_000), || case_of(derived::dspec().prop_map(Subj::Derived)), sites::check);
+        s.gen("errors", s.n(12_000, 300_000), || case_of(errors()), sites::check);
+        s.gen("well-known", s.n(8_000, 200_000), || case_of(well_known()), sites::check);
+    })
 }
